@@ -41,6 +41,9 @@ Proof. reflexivity. Qed.
 Lemma gen_load_dispatch_ref : gen_load_dispatch = ref_load_dispatch.
 Proof. reflexivity. Qed.
 
+Lemma gen_save_rule_ref : gen_save_rule = ref_save_rule.
+Proof. reflexivity. Qed.
+
 Lemma gen_attributes_ref : gen_attributes = ref_attributes /\ gen_writers = ref_writers.
 Proof. split; reflexivity. Qed.
 
@@ -59,18 +62,29 @@ Proof.
   injection H as <-. eapply add_keys_agree; eauto.
 Qed.
 
+Lemma gen_load_format_is_model p : src_load_format gen_load_dispatch p = load_format p.
+Proof.
+  rewrite gen_load_dispatch_ref. unfold src_load_format, load_format, ref_load_dispatch.
+  destruct (get_extension p) as [e|]; [|reflexivity].
+  cbn [fst snd mem_str existsb]. destruct (String.eqb e "csv"); [reflexivity|]. destruct (String.eqb e "json"); reflexivity.
+Qed.
+
 Lemma gen_conversions_are_model :
   (forall c, src_to_dataframe gen_df_rows_from gen_col_rule c = to_dataframe c)
-  /\ (forall t, src_from_dataframe gen_split_rule t = from_dataframe t)
+  /\ (forall t, src_from_dataframe gen_types gen_add gen_split_rule t = from_dataframe t)
+  /\ (forall ids d, src_from_pytorch gen_types gen_add ids d = from_pytorch ids d)
   /\ (forall rnd c, src_to_pytorch rnd gen_torch_iter c = to_pytorch rnd c)
   /\ (forall c ids, src_subset gen_types gen_add gen_subset_rule c ids = subset c ids)
-  /\ (forall p, src_load_format gen_load_dispatch p = load_format p).
+  /\ (forall p, src_load_format gen_load_dispatch p = load_format p)
+  /\ (forall c p, src_save_target gen_save_rule c p = save_target c p)
+  /\ (forall c, src_csv_roundtrip gen_types gen_add gen_df_rows_from gen_col_rule gen_split_rule c = csv_roundtrip c).
 Proof.
-  rewrite gen_df_rows_ref, gen_col_rule_ref, gen_split_rule_ref, gen_torch_iter_ref, gen_subset_rule_ref, gen_load_dispatch_ref, gen_add_ref.
-  split; [exact src_to_dataframe_ref|]. split; [exact src_from_dataframe_ref|]. split; [exact src_to_pytorch_ref|].
-  split; [intros c ids; apply src_subset_ref; exact gen_types_same|].
-  intros p. unfold src_load_format, load_format, ref_load_dispatch. destruct (get_extension p) as [e|]; [|reflexivity].
-  cbn [fst snd mem_str existsb]. destruct (String.eqb e "csv"); [reflexivity|]. destruct (String.eqb e "json"); reflexivity.
+  rewrite gen_df_rows_ref, gen_col_rule_ref, gen_split_rule_ref, gen_torch_iter_ref, gen_subset_rule_ref, gen_add_ref, gen_save_rule_ref.
+  pose proof gen_types_same as Htt.
+  split; [exact src_to_dataframe_ref|]. split; [intros t; apply src_from_dataframe_ref; exact Htt|].
+  split; [intros ids d; apply src_from_pytorch_ref; exact Htt|]. split; [exact src_to_pytorch_ref|].
+  split; [intros c ids; apply src_subset_ref; exact Htt|]. split; [exact gen_load_format_is_model|].
+  split; [exact src_save_target_ref|]. intros c; apply src_csv_roundtrip_ref; exact Htt.
 Qed.
 
 (* ------------------------------------------------------------------------------------------ the C16 theorems, over the generated tables *)
@@ -111,19 +125,27 @@ Theorem gen_torch_roundtrip (rnd : Q -> Q) c sh :
   src_to_pytorch rnd gen_torch_iter c = Ok (indices c, torch_dict rnd c sh)
   /\ map fst (torch_dict rnd c sh) = map fst sh
   /\ Forall (fun kt => List.length (snd kt) = List.length (indices c)) (torch_dict rnd c sh)
-  /\ from_pytorch (map IdStr (indices c)) (map (fun kt => (fst kt, T2 (snd kt))) (torch_dict rnd c sh))
+  /\ src_from_pytorch gen_types gen_add (map IdStr (indices c)) (map (fun kt => (fst kt, T2 (snd kt))) (torch_dict rnd c sh))
      = Ok (vec_container rnd c sh).
 Proof.
-  intros Hwf Hsh. destruct gen_conversions_are_model as [_ [_ [Ht _]]]. rewrite Ht. apply torch_roundtrip; assumption.
+  intros Hwf Hsh. destruct gen_conversions_are_model as [_ [_ [Hf [Ht _]]]]. rewrite Ht, Hf. apply torch_roundtrip; assumption.
 Qed.
 
 Theorem gen_table_roundtrip c sh :
   wf c -> shapes c = Some sh -> table_safe sh ->
   src_to_dataframe gen_df_rows_from gen_col_rule c = Ok (table_of c sh)
-  /\ src_from_dataframe gen_split_rule (table_of c sh) = Ok (vec_container (fun q => q) c sh)
+  /\ src_from_dataframe gen_types gen_add gen_split_rule (table_of c sh) = Ok (vec_container (fun q => q) c sh)
   /\ map (fun ps => (fst ps, [size_of_shape (snd ps)])) sh = sh.
 Proof.
   intros Hwf Hsh Hs. destruct gen_conversions_are_model as [Hd [Hf _]]. rewrite Hd, Hf. apply table_roundtrip; assumption.
+Qed.
+
+Theorem gen_csv_roundtrip c sh :
+  wf c -> shapes c = Some sh -> table_safe sh ->
+  Forall (fun ps => fst ps <> "") sh -> Forall (fun i => ~ In i na_tokens) (indices c) ->
+  src_csv_roundtrip gen_types gen_add gen_df_rows_from gen_col_rule gen_split_rule c = Ok (vec_container (fun q => q) c sh).
+Proof.
+  intros. destruct gen_conversions_are_model as [_ [_ [_ [_ [_ [_ [_ Hc]]]]]]]. rewrite Hc. apply csv_roundtrip_ok; assumption.
 Qed.
 
 (** F7a / F7b are properties of the rules READ FROM THE SOURCE *)
@@ -136,7 +158,7 @@ Proof. eexists. split; vm_compute; reflexivity. Qed.
 Theorem gen_underscore_refuted :
   exists c t c', add_all empty [(IdStr "a", ArgDict [("random_intercept", VList [ANum KFloat (1 # 2)]);
                                                      ("random_slope_age", VList [ANum KFloat (1 # 4)])])] = Ok c
-    /\ src_to_dataframe gen_df_rows_from gen_col_rule c = Ok t /\ src_from_dataframe gen_split_rule t = Ok c'
+    /\ src_to_dataframe gen_df_rows_from gen_col_rule c = Ok t /\ src_from_dataframe gen_types gen_add gen_split_rule t = Ok c'
     /\ shapes c' = Some [("random", [2%nat])].
 Proof. do 3 eexists. repeat split; vm_compute; reflexivity. Qed.
 
